@@ -1,12 +1,26 @@
-"""C01 (first version: Kani kernels only)."""
+"""C01: no in-contract sequence of API calls can crash the engine (union of the panic-freedom obligations)."""
+import obl_assembly as A
+import obl_fixed
 import obl_kani
+import obl_phonetic
 
 
 def run(c):
-    names = ['k_keycode_total']
-    if c.tier == "thorough":
-        names = names + THOROUGH
-    obl_kani.run(c, names)
-
-
-THOROUGH = []
+    c.only_clauses = {"no_panic"}          # the other clauses of these obligations belong to the other properties
+    obl_kani.run(c, ["k_keycode_total"])
+    q = c.tier == "quick"
+    obl_fixed.obl_session_fixed(c, 2 if q else 3, 1 if q else 2, 1 if q else 2, budget_s=900)
+    obl_fixed.obl_helpers(c, 2 if q else 3, 2 if q else 3, budget_s=900)
+    obl_fixed.obl_reph(c, 3 if q else 5, budget_s=900)
+    obl_fixed.obl_layout_key(c, budget_s=900)
+    obl_phonetic.obl_split(c, 3 if q else 4, budget_s=600)
+    obl_phonetic.obl_phonetic_glue(c, 2 if q else 3, budget_s=900)
+    obl_phonetic.obl_userfiles(c, budget_s=600)
+    if A.validate_assembly_concrete(c):
+        ct = A.conv_table_for([])
+        A.obl_empty_strings(c, ct, budget_s=900)
+        A.obl_regex_hygiene(c, 2 if q else 3, budget_s=600)
+    c.assume("panic-freedom is decided per event from an arbitrary pre-state satisfying the stated invariants (one inductive step covers "
+             "histories of any length); candidate assembly runs with the data sources as oracles")
+    c.outside("panics inside okkhor, regex (size limit on the pattern of a very long word), poriborton, edit-distance, serde_json, emojicon, ahash; "
+              "Data::new; allocation failure; running time (a solver bound says nothing about time blow-up)")
